@@ -8,7 +8,7 @@ pub fn engine() -> PoolHist {
     PoolHist {
         name: "pool-history-backing",
         mon: Mon { c01: true, ..Mon::default() },
-        weights: Weights { create: 2, provide: 8, single: 6, withdraw: 6, swap: 9, route: 7, misc: 4, bad: 3 },
+        weights: Weights { roundtrip: 0, create: 2, provide: 8, single: 6, withdraw: 6, swap: 9, route: 7, misc: 4, bad: 3 },
         simple_routes: false,
         max_ops_quick: 40,
         max_ops_thorough: 80,
